@@ -997,7 +997,77 @@ func (g *gstate) vary(e elem) (elem, bool) {
 	}
 }
 
-type flags struct{ kindChange, dropCarry, crossBlock, sameBody, missing, link, partner bool }
+type flags struct {
+	kindChange, dropCarry, crossBlock, sameBody, missing, link, partner bool
+	hostile string // ill-formed request that must be rejected with 400 and change nothing
+}
+
+// genHostile: requests the server must reject before writing anything (C13-7-fix, C13-8-fix),
+// plus the no-op move whose source equals its destination.
+func (g *gstate) genHostile(f *flags) *jop {
+	used := map[pos]bool{}
+	fresh := func() (pos, bool) { return g.free(used, g.randPos) }
+	switch g.r.Intn(6) {
+	case 0: // two elements at one position
+		if p, ok := fresh(); ok {
+			f.hostile = "post two elements at one position"
+			a, b := g.newElem(p), g.newElem(p)
+			op := &jop{Op: "post", Elems: []elem{a, b}}
+			if q, ok := fresh(); ok && g.r.Bool() {
+				op.Elems = append([]elem{g.newElem(q)}, op.Elems...)
+			}
+			return op
+		}
+	case 1: // a tag twice
+		if p, ok := fresh(); ok {
+			f.hostile = "post element with a repeated tag"
+			e := g.newElem(p)
+			t := 1 + g.r.Intn(4)
+			e.Tags = []int{t, 1 + g.r.Intn(4), t}
+			return &jop{Op: "post", Elems: []elem{e}}
+		}
+	case 2: // related to itself
+		if p, ok := fresh(); ok {
+			f.hostile = "post element related to itself"
+			e := g.newElem(p)
+			e.Rels = []rel{{Rel: 1 + g.r.Intn(4), To: p}}
+			return &jop{Op: "post", Elems: []elem{e}}
+		}
+	case 3: // onto an occupied position
+		if len(g.els) >= 2 {
+			f.hostile = "move onto an occupied position"
+			idx := g.shuffled(len(g.els))
+			return &jop{Op: "move", P: g.els[idx[0]].Pos, Q: g.els[idx[1]].Pos}
+		}
+	case 4: // source = destination: accepted, nothing changes
+		if len(g.els) >= 1 {
+			f.hostile = "move with source = destination (no-op)"
+			p := g.els[g.r.Intn(len(g.els))].Pos
+			return &jop{Op: "move", P: p, Q: p}
+		}
+	case 5: // POST blocks with an element outside its block, or twice the same position
+		if len(g.els) >= 1 {
+			e := g.els[g.r.Intn(len(g.els))]
+			b := blockOf(e.Pos)
+			var cur []elem
+			for _, x := range g.els {
+				if blockOf(x.Pos) == b {
+					cur = append(cur, cp(x))
+				}
+			}
+			if g.r.Bool() {
+				f.hostile = "post blocks with an element outside its block"
+				out := g.newElem(pos{e.Pos[0] + bs, e.Pos[1], e.Pos[2]})
+				cur = append(cur, out)
+			} else {
+				f.hostile = "post blocks with two elements at one position"
+				cur = append(cur, g.newElem(e.Pos))
+			}
+			return &jop{Op: "reload", Blocks: []jblock{{B: b, Elems: cur}}}
+		}
+	}
+	return nil
+}
 
 func (g *gstate) genPostNew() *jop {
 	n := 1 + g.r.Intn(4)
@@ -1491,7 +1561,13 @@ func (g *gstate) genQuery() jquery {
 func (g *gstate) genOp(f *flags) *jop {
 	for {
 		var op *jop
-		w := g.r.Intn(107)
+		w := g.r.Intn(114)
+		if w >= 107 {
+			if op = g.genHostile(f); op != nil {
+				return op
+			}
+			continue
+		}
 		if w >= 82 && w < 90 && g.r.Chance(0.4) {
 			w = 90 // a cleave instead of a merge (falls back to another op when no body has two supervoxels)
 		}
@@ -1616,6 +1692,12 @@ func countOp(run *lib.Run, op *jop, cls int, f flags) {
 	if f.dropCarry {
 		run.Count("post:drop+add same tag in one block")
 	}
+	if f.hostile != "" {
+		run.Count("hostile: " + f.hostile)
+		if (cls == 1) != (f.hostile != "move with source = destination (no-op)") {
+			run.Count("hostile request NOT answered as expected")
+		}
+	}
 }
 
 // runStored re-executes a stored history exactly
@@ -1705,6 +1787,22 @@ func corpus() []jcase {
 			{Op: "merge", Target: 1, Labels: []uint64{2}},
 			{Op: "mutate", B: pos{0, 0, 0}, Paint: []jpaint{{0, 7, 1}, {8, 15, 4993}}, Force: true},
 		}},
+		// (v) ill-formed requests: each must be answered 400 and change nothing (C13-7-fix, C13-8-fix)
+		{Paint0: pt, Ops: []jop{
+			{Op: "post", Elems: []elem{{Pos: pos{4, 4, 4}, Kind: 2, Tags: []int{1}}, {Pos: pos{20, 4, 4}, Kind: 1, Tags: []int{2}}}},
+			{Op: "post", Elems: []elem{{Pos: pos{5, 5, 5}, Kind: 1}, {Pos: pos{6, 5, 5}, Kind: 1}, {Pos: pos{5, 5, 5}, Kind: 2}}},
+			{Op: "post", Elems: []elem{{Pos: pos{6, 6, 6}, Kind: 4, Tags: []int{1, 2, 1}}}},
+			{Op: "post", Elems: []elem{{Pos: pos{7, 7, 7}, Kind: 3, Rels: []rel{{Rel: 4, To: pos{7, 7, 7}}}}}},
+			{Op: "move", P: pos{4, 4, 4}, Q: pos{20, 4, 4}},
+			{Op: "move", P: pos{4, 4, 4}, Q: pos{5, 4, 4}},
+			{Op: "move", P: pos{5, 4, 4}, Q: pos{20, 4, 4}},
+			{Op: "move", P: pos{5, 4, 4}, Q: pos{5, 4, 4}},
+			{Op: "post", Elems: []elem{{Pos: pos{8, 8, 8}, Kind: 3, Rels: []rel{{Rel: 4, To: pos{-9, 9, 9}}}}}},
+			{Op: "move", P: pos{8, 8, 8}, Q: pos{-9, 9, 9}},
+			{Op: "delete", P: pos{8, 8, 8}},
+			{Op: "reload", Blocks: []jblock{{B: pos{0, 0, 0}, Elems: []elem{{Pos: pos{5, 4, 4}, Kind: 2, Tags: []int{1}}, {Pos: pos{16, 4, 4}, Kind: 1}}}}},
+			{Op: "reload", Blocks: []jblock{{B: pos{0, 0, 0}, Elems: []elem{{Pos: pos{5, 4, 4}, Kind: 2, Tags: []int{1}}, {Pos: pos{5, 4, 4}, Kind: 1}}}}, Force: true},
+		}},
 	}
 }
 
@@ -1728,9 +1826,9 @@ func main() {
 		}
 		runStored(run, "history", jc)
 	} else {
-		n := 14
+		n := 15
 		if o.Thorough() {
-			n = 121
+			n = 122
 		}
 		if o.N > 0 {
 			n = o.N
